@@ -22,8 +22,7 @@ first token replaced (`checklib/props/_links.py`):
   stream, the raw decoder model must accept it and report exactly those segments (`Link_fitformat_raw`).
 
 * `linkwire chk=<0|1> <hex>` (a `decw` line) — the wire model (A) against (D) in the common form `WEv` (definitions, per message header /
-  number / field bytes, per sequence header and CRCs, error class), on streams where (D) does not end with `invalidBaseType`
-  (`Link_wire_eq_decprog_partial`; `n/a:basetype` otherwise: there (A) is known to be wrong, notes/links.md D1).
+  number / field bytes, per sequence header and CRCs, error class), on every stream (`Link_wire_eq_decprog`).
 
 Answer: `ok`, `n/a:<hypothesis not met>`, or `diff:<which>`.
 -/
@@ -110,10 +109,8 @@ def hLinkWire : Handler := modelOnly fun args =>
     let fuel := bs.length + 1
     let a := Fit.Wire.decodeStream (fun _ => true) chk fuel true bs
     let d := runExact (Fit.DecProg.decodeLoop chk fuel true []) bs
-    -- `Link_wire_eq_decprog_partial`: equal unless (D) ends with `invalidBaseType`
-    if d.status == some .invalidBaseType then (if wireObsA a == wireObsD d then "n/a:basetype" else "n/a:basetype,differ")
-    else if wireObsA a == wireObsD d then "ok"
-    else "diff:wire"
+    -- `Link_wire_eq_decprog`: equal on every byte list
+    if wireObsA a == wireObsD d then "ok" else "diff:wire"
   | _ => "bad-op"
 
 end Drv.Links
